@@ -38,6 +38,10 @@ bool BinaryFileReader::read_header()
         state_ = ReadState::ErrorInvalidFile;
         error_msg_ = std::string("parse_error: ") + e.what();
         return false;
+    } catch (io_error &e) {
+        state_ = ReadState::BadStream;
+        error_msg_ = std::string("io_error: ") + e.what();
+        return false;
     }
 }
 
